@@ -5,6 +5,7 @@ import DesyncModel.Spec
 import DesyncModel.Tables.TrySync
 import DesyncModel.FactTrySync
 import DesyncModel.Lemmas
+import DesyncModel.Inv.OwnedReach
 
 namespace Desync.C09
 open Desync Gen
@@ -59,5 +60,13 @@ theorem idle_empty_succeeds : (trySyncDecide .idle true) = (.running, .immediate
 def idle_succeeds_full : Prop :=
   ∀ s, Reachable s → Quiescent s → NoCallInProgress s → AllGatesOpen s → 1 ≤ s.maxThreads →
     ∀ (q : Nat) (v : JobQ), s.qs[q]? = some v → (trySyncDecide v.state v.jobs.isEmpty).2 = .immediate
+
+/-- **try_sync never leaves a queue half-claimed** (and nothing else does): in every reachable state a queue that is marked
+`running` (or `awokenWhileRunning` / `waitingForUnpark`) has an activity inside the code that runs it — so a `try_sync` that
+has returned, whatever it returned, has not left the queue marked as running (defect F1 did exactly that).
+(`OwnedInv`, inductive over all program counters: Inv/Owned, OwnedStep, OwnedReach.) -/
+theorem running_queue_is_being_run {s : State} (hr : Reachable s) {q : Nat} {v : JobQ} (hv : s.qs[q]? = some v) (hheld : v.state.held = true) :
+    ∃ a, (s.pcAt a).holds q = true :=
+  running_queue_has_a_runner hr hv hheld
 
 end Desync.C09
